@@ -221,8 +221,11 @@ func (h *Hist) genTx() *histTx {
 			recipient = h.user().Addr.String()
 		}
 		a := h.amt(1, 20_000_000_000)
-		if r.Intn(4) == 0 {
-			a = h.amt(1, 30_000) // dust: fee skims and conversions that truncate to zero
+		switch r.Intn(8) {
+		case 0:
+			a = h.amt(1, 30_000) // dust
+		case 1, 2:
+			a = math.NewInt(int64(300 + r.Intn(14_000))) // the swap fee itself is a handful of base units: its skim and its conversion to the fee denom truncate, some to zero
 		}
 		switch kind {
 		case "amm.swapIn":
@@ -780,7 +783,7 @@ func runHist(t *testing.T, seed int64, n int, out *Out) {
 		hseed := seed*100 + int64(hi)
 		w := NewWorld(t, hseed, 7)
 		// one history in four runs in a world where uatom is worth less than uusdc per base unit
-		atomPrice := []string{"5", "5", "5", "0.25"}[int(hseed)%4]
+		atomPrice := []string{"5", "5", "5", "0.25"}[rand.New(rand.NewSource(hseed^0x5eed)).Intn(4)]
 		if v := os.Getenv("VERIF_ATOM_PRICE"); v != "" {
 			atomPrice = v
 		}
